@@ -313,8 +313,14 @@ def run(ck):
             key = "render:resolve-clone:" + pattern(f)
             if len(reported) < 8 and key not in reported:
                 reported.add(key)
-                ck.violation(key, "resolveDependencies()/copy changes the rendering or the value of '%s'" % f,
-                             {"formula": f, "request": line, "implementation": a, "model": m}, True)
+                if " API-DIFF " in a:
+                    what = "the value of '%s' depends on the route through the public API: %s, but %s" % (
+                        f, a.split(" API-DIFF ")[0], "; ".join(a.split(" API-DIFF ")[1:])[:300])
+                elif " SUBST-DIFF " in a:
+                    what = "getCxxFormula(m) of '%s' is not getCxxFormula() with the variables renamed by m: %s" % (f, a.split(" SUBST-DIFF ")[1][:200])
+                else:
+                    what = "resolveDependencies()/copy changes the rendering or the value of '%s'" % f
+                ck.violation(key, what, {"formula": f, "request": line, "implementation": a, "model": m}, True)
             continue
         if L.same_answer(a, m):
             continue
